@@ -413,6 +413,9 @@ def c09_families(rng, tier):
     lines = [line("chain7", rand_hand(rng, 7)) for _ in range(n)]
     lines += [l.replace("x ", "chain7 ", 1) for l in made_hands(rng, 7, n // 2, "x")]
     lines += [l.replace("x 7 ", "chain7 ", 1) for l in row_targeted(rng, 7, "x 7")]
+    # the same relation with the containers built through the other construction paths (setters, from-parts)
+    lines += [line("chain7s", rand_hand(rng, 7)) for _ in range(n // 3)]
+    lines += [l.replace("x 7 ", "chain7s ", 1) for l in row_targeted(rng, 7, "x 7")]
     return [fam("seven_six_five_chains", lines,
                 "seeded, made and row-targeted sevens: v7 <= all seven six-card values, v7 = their minimum, each v6 <= its six "
                 "five-card values and equals their minimum (projection: booleans only; 1 + 7 + 42 rankings per case)", pinned=True)]
